@@ -514,6 +514,41 @@ def native_requeue_chain(scratch):
                 signature=dict(op="prune", what="a reprieved entry is skipped after an earlier reprieved entry vanished"))
 
 
+def native_requeue_error(scratch):
+    """Native scenario for 'a re-queue step that fails with anything but an absent-file error is reported':
+    `loop` (read, oldest) is a symbolic link to itself - listed by the scan, ELOOP when re-stamped;
+    u1, u2 were never read; capacity 2 makes u1 the victim and `loop` the reprieved entry.  prune must
+    not report success while `loop` keeps its old queue position."""
+    import os, shutil
+    from . import scenario
+    nat = getattr(scratch, "_native", None) or scenario.Native(scratch)
+    scratch._native = nat
+    nat.build()
+    bad = []
+    outs = {}
+    for profile in ("debug", "release"):
+        root = nat.sandbox()
+        try:
+            d = os.path.join(root, "w")
+            os.makedirs(d)
+            lp = os.path.join(d, "loop")
+            os.symlink(lp, lp)
+            os.utime(lp, ns=(2000 * 10**9, 1000 * 10**9), follow_symlinks=False)
+            for name, mt, at in (("u1", 1001, 900), ("u2", 1002, 900)):
+                pth = os.path.join(d, name)
+                open(pth, "w").write(name)
+                os.utime(pth, ns=(at * 10**9, mt * 10**9))
+            r = nat.run(["prune", d, 2], profile=profile)
+            outs[profile] = r["out"]
+            st = os.lstat(lp)
+            if "result ok" in r["out"] and int(st.st_mtime) == 1000:
+                bad.append("%s: prune reported success although re-stamping `loop` failed (mtime still %d)" % (profile, st.st_mtime))
+        finally:
+            shutil.rmtree(root, ignore_errors=True)
+    return dict(reproduced=len(bad) == 2, detail="; ".join(bad) or "the failure was reported natively", outputs=outs,
+                signature=dict(op="prune", what="a failing re-queue step (not an absent file) is masked"))
+
+
 # ---------------------------------------------------------------------------------------------
 MAX_PLAN = 2  # entries per list (to_evict, to_move_back)
 
@@ -569,13 +604,20 @@ def c07_apply_glue(funcs, text):
             n = next(ex.counter)
             okb = ex.fresh_bool("%s_ok" % kind)
             errv = ("opaque", "err_%s_%d" % (kind, n), "io::Error")
-            log.append((kind, comps, list(pc), errv[1]))
+            log.append((kind, comps, list(pc), errv[1], okb[1]))
             return [([okb[1]], ("adt", "Result", 0, {0: ("tuple", [])})),
                     (["(not %s)" % okb[1]], ("adt", "Result", 1, {0: errv}))]
         return m
 
+    absent_log = []   # (identity of the error asked about, pc at the call, answer literal)
+
     def m_is_absent(ex, args, pc):
         b = ex.fresh_bool("absent")
+        try:
+            e = ex.project(args[0], ("deref",)) if args[0][0] == "ref" else args[0]
+            absent_log.append((e[1] if e[0] == "opaque" else None, list(pc), b[1]))
+        except Exception:
+            absent_log.append((None, list(pc), b[1]))
         return [([b[1]], ("bool", "true")), (["(not %s)" % b[1]], ("bool", "false"))]
 
     ex = _fresh_executor(funcs, inline=lambda name: False, models={
@@ -607,7 +649,7 @@ def c07_apply_glue(funcs, text):
         mine = [c for c in log if c[2] == pc[:len(c[2])]]
         # expected: remove evict_entry0.., then requeue moveback_entry0.., each on [DIR, name_of_<entry>]
         ei = mi = 0
-        for (kind, comps, _pc, errname) in mine:
+        for (kind, comps, _pc, errname, _okb) in mine:
             if kind == "remove":
                 want = ["DIR", "name_of_evict_entry%d" % ei]
                 ei += 1
@@ -626,6 +668,26 @@ def c07_apply_glue(funcs, text):
                 bad.append("an error is returned that is not the failing step's own error")
     obs.append(verdict(not bad, "apply_update: every step acts on <dir>/<name of that plan entry>, victims first, in plan order; errors are returned unchanged"
                        + ("" if not bad else " -- " + "; ".join(sorted(set(bad))[:3]))))
+    # no masking: a path that returns Ok contains no failed removal, and every failed re-queue step on it was
+    # classified as an absent file by is_absent_file_error asked about *that* error
+    masked = []
+    for (pc, rv, env) in res:
+        if not (rv[0] == "adt" and rv[1] == "Result" and rv[2] == 0):
+            continue
+        lits = set(pc)
+        for c in [c for c in log if c[2] == pc[:len(c[2])]]:
+            if "(not %s)" % c[4] not in lits:
+                continue
+            if c[0] == "remove":
+                masked.append("success is returned after a failed removal")
+                continue
+            asked = [a for a in absent_log if a[1] == pc[:len(a[1])] and a[0] == c[3] and a[2] in lits]
+            if not asked:
+                masked.append("success is returned after a re-queue step failed with an error that is not an absent file")
+    ob_mask = verdict(not masked, "C07+C18+C05: apply_update: success means every victim was removed and every reprieved entry re-queued or found absent; "
+                      "any other failure of a step is returned" + ("" if not masked else " -- " + "; ".join(sorted(set(masked)))))
+    ob_mask.native_py = native_requeue_error
+    obs.append(ob_mask)
     # completeness: for every pair of list lengths (a, b) <= MAX_PLAN there is an Ok path with exactly a removals and b re-queues
     shapes = set()
     for (pc, rv, env) in res:
